@@ -22,9 +22,12 @@ const (
 	stdoutID = -1
 	stderrID = -2
 	nPool    = 6
-	custErr  = slog.Level(21) // registered with the error device
-	custStd  = slog.Level(22) // registered without
+	custErr  = slog.Level(21) // registered with the error device and a treated-as level
+	custStd  = slog.Level(22) // registered with a treated-as level only
 	custRaw  = slog.Level(23) // never registered
+	custErr2 = slog.Level(24) // registered with the error device only (no treated-as level)
+	custNeg  = slog.Level(-7) // negative value, error device only
+	custPln  = slog.Level(25) // registered without any option
 )
 
 // Step is one operation of a generated history. JSON-encodable so that the
@@ -74,6 +77,9 @@ type ObsEvt struct {
 func registerCustom() {
 	_ = slog.RegisterLevel(custErr, "custerr", slog.RegWithTreatedAsLevel(slog.InfoLevel), slog.RegWithPrintToErrorDevice(true))
 	_ = slog.RegisterLevel(custStd, "custstd", slog.RegWithTreatedAsLevel(slog.ErrorLevel))
+	_ = slog.RegisterLevel(custErr2, "custerrtwo", slog.RegWithPrintToErrorDevice(true))
+	_ = slog.RegisterLevel(custNeg, "custneg", slog.RegWithPrintToErrorDevice(true))
+	_ = slog.RegisterLevel(custPln, "custplain")
 }
 
 func interp(script []Step, skipUngiven bool) (obs []Obs) {
@@ -192,7 +198,9 @@ type wset struct {
 	leveled      map[int][]int
 }
 
-func newWset() *wset { return &wset{normal: []int{stdoutID}, errw: []int{stderrID}, leveled: map[int][]int{}} }
+func newWset() *wset {
+	return &wset{normal: []int{stdoutID}, errw: []int{stderrID}, leveled: map[int][]int{}}
+}
 
 func removeFirst(l []int, w int) []int {
 	for i, x := range l {
@@ -248,7 +256,7 @@ func (m *wset) apply(s Step) {
 }
 
 var errorClass = map[int]bool{int(slog.PanicLevel): true, int(slog.FatalLevel): true, int(slog.ErrorLevel): true,
-	int(slog.WarnLevel): true, int(slog.FailLevel): true, int(custErr): true}
+	int(slog.WarnLevel): true, int(slog.FailLevel): true, int(custErr): true, int(custErr2): true, int(custNeg): true}
 
 func (m *wset) dest(level int) []int {
 	if level == int(slog.OffLevel) {
@@ -364,7 +372,7 @@ func verify(t vlib.TB, script []Step, obs []Obs, stdCount func(n int, tok string
 				labels["probe:off"] = true
 			case len(m.leveled[s.Level]) > 0:
 				labels["probe:per-level"] = true
-			case s.Level >= int(custErr):
+			case s.Level >= int(custErr) || s.Level < 0:
 				labels["probe:custom"] = true
 			case errorClass[s.Level]:
 				labels["probe:error-class"] = true
@@ -402,7 +410,7 @@ var writerOps = []string{"SetWriter", "AddWriter", "RemoveWriter", "SetErrorWrit
 var optionOps = []string{"SetWriter", "AddWriter", "SetErrorWriter", "AddErrorWriter", "AddLevelWriter", "RemoveLevelWriter",
 	"ResetLevelWriter", "ResetLevelWriters", "ResetWriters"}
 
-var probeLevels = []int{0, 1, 2, 3, 4, 5, 6, 7, 8, 9, 10, 11, int(custErr), int(custStd), int(custRaw)}
+var probeLevels = []int{0, 1, 2, 3, 4, 5, 6, 7, 8, 9, 10, 11, int(custErr), int(custStd), int(custRaw), int(custErr2), int(custNeg), int(custPln)}
 var levelWriterLevels = []int{int(slog.ErrorLevel), int(slog.InfoLevel), int(slog.WarnLevel), int(slog.DebugLevel), int(slog.OKLevel), int(slog.FailLevel), int(custErr), int(custStd), int(custRaw), int(slog.OffLevel)}
 
 // genScript draws a history. Removes are only drawn for writers that occur at most
